@@ -23,6 +23,21 @@ ENTRY_STATUS_EXISTING = 0
 ENTRY_STATUS_ADDED = 1
 
 
+
+# Snapshot.summary key recording how many manifests the snapshot's manifest
+# list holds (written at commit, checked by every reader of the list).
+MANIFEST_COUNT_SUMMARY_KEY = "manifest-count"
+
+
+def recorded_manifest_count(snapshot: Any) -> Optional[int]:
+    """Manifest count recorded in the snapshot summary, or None (older snapshots)."""
+    raw = (getattr(snapshot, "summary", None) or {}).get(MANIFEST_COUNT_SUMMARY_KEY)
+    try:
+        return int(raw) if raw is not None else None
+    except (TypeError, ValueError):
+        return None
+
+
 class FileManager:
     """Handles file system operations and manifest management"""
 
@@ -272,8 +287,35 @@ class FileManager:
             ),
         )
 
-    def read_manifest_file(self, manifest_path: str) -> List[DataFile]:
-        """Read and parse a manifest file to get data files"""
+    @staticmethod
+    def expected_entry_count(manifest: ManifestFile) -> Optional[int]:
+        """Number of entries the manifest list promises for a manifest, or None."""
+        added, existing = manifest.added_data_files_count, manifest.existing_data_files_count
+        if isinstance(added, int) and isinstance(existing, int):
+            return added + existing
+        return None
+
+    @staticmethod
+    def _check_count(kind: str, path: str, got: int, expected: Optional[int]) -> None:
+        """Fail closed on a file that parses but holds fewer (or more) entries
+        than the file referencing it recorded. An Avro file cut at a block
+        boundary - down to the bare header - still parses: without this check
+        a truncated manifest (list) silently yields a subset of the table, or
+        an empty one, and GC would treat the missing files as unreachable."""
+        if expected is not None and got != expected:
+            raise ValueError(
+                f"{kind} {path} holds {got} entries but {expected} were recorded when it "
+                f"was committed - the file is truncated or was replaced"
+            )
+
+    def read_manifest_file(
+        self, manifest_path: str, expected_entries: Optional[int] = None
+    ) -> List[DataFile]:
+        """Read and parse a manifest file to get data files.
+
+        expected_entries: entry count recorded for this manifest in the
+        manifest list (see expected_entry_count); a mismatch raises.
+        """
         if not self.storage.exists(manifest_path):
             raise FileNotFoundError(f"Manifest file does not exist: {manifest_path}")
 
@@ -331,12 +373,13 @@ class FileManager:
                         ),
                     )
                     data_files.append(data_file)
-                return data_files
-
         except (ValueError, IndexError, StopIteration, OSError):
             # Fallback: JSON
             # If Avro parsing fails, we try reading as JSON (backward compatibility)
             pass
+        else:
+            self._check_count("Manifest", manifest_path, len(data_files), expected_entries)
+            return data_files
 
         content = self.storage.read_file(manifest_path)
         try:
@@ -363,10 +406,11 @@ class FileManager:
                     sequence_number=file_entry.get("sequence_number"),
                 )
                 data_files.append(data_file)
-            return data_files
         except Exception as e:
             # If JSON also fails, raise original error or generic error
             raise ValueError(f"Could not parse manifest file {manifest_path} (tried Avro and JSON)") from e
+        self._check_count("Manifest", manifest_path, len(data_files), expected_entries)
+        return data_files
 
     def create_manifest_list_file(
         self,
@@ -419,8 +463,14 @@ class FileManager:
 
         return list_path
 
-    def read_manifest_list_file(self, list_path: str) -> List[ManifestFile]:
-        """Read a manifest list file and return manifest files"""
+    def read_manifest_list_file(
+        self, list_path: str, expected_manifests: Optional[int] = None
+    ) -> List[ManifestFile]:
+        """Read a manifest list file and return manifest files.
+
+        expected_manifests: manifest count recorded in the snapshot summary
+        ("manifest-count") when the list was committed; a mismatch raises.
+        """
         if not self.storage.exists(list_path):
             raise FileNotFoundError(f"Manifest list file does not exist: {list_path}")
 
@@ -448,11 +498,12 @@ class FileManager:
                         min_sequence_number=record.get("min_sequence_number")
                     )
                     manifest_files.append(manifest_file)
-                return manifest_files
-
         except (ValueError, IndexError, StopIteration, OSError):
             # Fallback: JSON
             pass
+        else:
+            self._check_count("Manifest list", list_path, len(manifest_files), expected_manifests)
+            return manifest_files
 
         content = self.storage.read_file(list_path)
 
@@ -474,9 +525,10 @@ class FileManager:
                     content=ManifestContent(manifest_entry["content"]),
                 )
                 manifest_files.append(manifest_file)
-            return manifest_files
         except Exception as e:
             raise ValueError(f"Could not parse manifest list file {list_path}") from e
+        self._check_count("Manifest list", list_path, len(manifest_files), expected_manifests)
+        return manifest_files
 
     def cleanup_orphaned_files(self, valid_file_paths: List[str]) -> int:
         """Removed: unsafe legacy cleanup. Use Table.garbage_collect() instead.
